@@ -32,9 +32,19 @@ def units():  # noqa: F811
         Unit("update[no screening, dynamic A]", F + "update", _upd(False, True), props=["C12"], timeout=900),
         Unit("update[screening, static A]", F + "update", _upd(True, False), props=["C12"], timeout=900),
         Unit("update[screening, dynamic A]", F + "update", _upd(True, True), props=["C12"], timeout=900),
+        Unit("_run_stage[save, update raises]", "tdgl.solver.runner:Runner._run_stage", lambda m=None: _stage_raises(m), props=["C12", "C15"], timeout=900),
         Unit("TDGLSolver.__init__[no seed]", F + "__init__", lambda m=None: ic.run_init(m, prefixes=("C12.",)), props=["C12"], timeout=900),
         Unit("TDGLSolver.__init__[seed solution]", F + "__init__", lambda m=None: ic.run_init(m, prefixes=("C12.",), seeded=True), props=["C12"], timeout=900),
     ]
+
+
+def _stage_raises(m=None):
+    """the run level of 'exhausting the retries raises an error instead of continuing': an error raised by the update leaves the
+    real Runner loop unchanged (shared proof unit with C15; only the error-propagation obligations are kept)"""
+    from checks import c15
+    r = c15._stage(True, "update_raises")(m)
+    r["obls"] = [o for o in r["obls"] if "stage_exceptional" in o.name or not o.name.startswith("C")]
+    return r
 
 
 def replay_scope(unit, obl):
@@ -46,6 +56,9 @@ def replay(unit, obl):
     from checks import update_native
     if unit.startswith("TDGLSolver.__init__"):
         return update_native.replay_init(unit, obl)
+    if unit.startswith("_run_stage"):
+        from checks import c15_native
+        return c15_native.replay(unit, obl)
     return update_native.replay(unit, obl)
 
 
